@@ -1,6 +1,6 @@
 SPECIFICATION Spec
 CONSTANTS Kinds = {"rm", "rcm"} MaxR = 2 MaxC = 1 MaxLate = 1 MaxClose = 1 GraceSet = {0} MaxT = 3
   RClasses = {"nil", "err", "canceled"} CClasses = {"nil", "err"}
-  AtomicAddCloser = TRUE GraceRecheck = FALSE Monitor = TRUE Defect = "none"
+  AtomicAddCloser = TRUE GraceRecheck = FALSE ReleaseBeforeStart = FALSE Monitor = TRUE Defect = "none"
 INVARIANTS NotBad
 CHECK_DEADLOCK FALSE
